@@ -46,6 +46,10 @@ structure Inv (c : Cfg) (w : WSt σ) : Prop where
   r0s : w.snapS.r0 + 1 ≤ max 1 (min w.start c.dictCap)
   lim : 25 ≤ Gen.lzma_opLenMargin → w.digits + 9 ≤ Gen.lzma_maxCompressed
 
+/-- the invariant together with the sync invariant `I` of the match finder (state against history / look-ahead) -/
+structure InvI (c : Cfg) (I : σ → ByteArray → ByteArray → Prop) (w : WSt σ) : Prop extends Inv c w where
+  sync : I w.m w.hist w.look
+
 /-- chunk-level state untouched, `d` appended to the data -/
 structure Frame (w w' : WSt σ) (d : ByteArray) : Prop where
   out : w'.out = w.out
@@ -116,8 +120,9 @@ theorem digits_eq (w : WSt σ) (h : w.e.out = []) : w.digits = w.body.size + w.e
 
 /-! ### one operation -/
 
-def OpPost (c : Cfg) (w : WSt σ) : OpRes σ → Prop
-  | .ok w' => Inv c w' ∧ Frame w w' ByteArray.empty ∧ w'.look.size + 1 ≤ w.look.size
+def OpPost (c : Cfg) (w : WSt σ) (g : GoOp) : OpRes σ → Prop
+  | .ok w' => Inv c w' ∧ Frame w w' ByteArray.empty ∧ w'.look.size + 1 ≤ w.look.size ∧
+      w'.m = w.m ∧ w'.hist = w.hist ++ w.look.extract 0 g.len ∧ w'.look = w.look.extract g.len w.look.size
   | .limit _ => False
   | .broken _ => ¬ 25 ≤ Gen.lzma_opLenMargin
   | .bad _ _ => False
@@ -125,7 +130,7 @@ def OpPost (c : Cfg) (w : WSt σ) : OpRes σ → Prop
 theorem encodeOp_spec (c : Cfg) (hc : CfgOk' c) (w : WSt σ) (g : GoOp) (hi : Inv c w)
     (hg : GoOpOk' c w.hist w.look w.s g)
     (hadm : w.digits + 4 + Gen.lzma_opLenMargin ≤ Gen.lzma_maxCompressed) :
-    OpPost c w (encodeOp c w g) := by
+    OpPost c w g (encodeOp c w g) := by
   obtain ⟨henc, hlen1, hlen2⟩ := goOp_encodable c hc w.hist w.look w.s g hg
   have hcap : 1 ≤ c.dictCap := hc.2.2.1
   have hctx := ctx_eq c w hcap hi.space hi.r0
@@ -141,7 +146,7 @@ theorem encodeOp_spec (c : Cfg) (hc : CfgOk' c) (w : WSt σ) (g : GoOp) (hi : In
   unfold encodeOp
   rw [henc]
   simp only [Bool.not_true, Bool.false_eq_true, if_false, hop, hctx]
-  change OpPost c w (match encPathChk w.body.size w.tbl w.e (opEnc (mkCtx c.props w.s (HH c w)) op) with
+  change OpPost c w g (match encPathChk w.body.size w.tbl w.e (opEnc (mkCtx c.props w.s (HH c w)) op) with
     | none => OpRes.broken w
     | some (tbl', e') => _)
   cases hchk : encPathChk w.body.size w.tbl w.e (opEnc (mkCtx c.props w.s (HH c w)) op) with
@@ -170,7 +175,7 @@ theorem encodeOp_spec (c : Cfg) (hc : CfgOk' c) (w : WSt σ) (g : GoOp) (hi : In
     have hsh := encodeOps_sh c.props w.snapS w.snapTbl (H0 c w) w.curOps.toList
     rw [hi.enc] at hsh
     refine ⟨⟨hi.cks, hi.out, hi.ctype, ?_, ?_, ?_, rfl, rest_clear_out _ hnest.1, tblAfter_ok _ _ hi.tblok,
-      hi.snapok, ?_, ?_, ?_, ?_, hi.r0s, ?_⟩, ⟨rfl, rfl, rfl, rfl, rfl, rfl, rfl, ?_, ?_, ?_⟩, ?_⟩
+      hi.snapok, ?_, ?_, ?_, ?_, hi.r0s, ?_⟩, ⟨rfl, rfl, rfl, rfl, rfl, rfl, rfl, ?_, ?_, ?_⟩, ?_, ?_, ?_, ?_⟩
     · show (EE c w).h = _
       rw [hi.eh]; exact hH0.symm
     · show encodeOps c.props w.snapS w.snapTbl ⟨(w.hist ++ w.look.extract 0 g.len).extract 0 w.start, 0, c.dictCap⟩
@@ -220,28 +225,33 @@ theorem encodeOp_spec (c : Cfg) (hc : CfgOk' c) (w : WSt σ) (g : GoOp) (hi : In
       omega
     · show (w.look.extract g.len w.look.size).size + 1 ≤ w.look.size
       rw [hls]; omega
+    · first | rfl | trivial
+    · first | rfl | trivial
+    · first | rfl | trivial
 
 /-! ### `compress` -/
 
 def thr (all : Bool) : Nat := if all then 0 else Gen.lzma_maxMatchLen - 1
 
-def CompPost (c : Cfg) (all : Bool) (w : WSt σ) : OpRes σ → Prop
-  | .ok w' => Inv c w' ∧ Frame w w' ByteArray.empty ∧ w'.look.size ≤ thr all
-  | .limit w' => Inv c w' ∧ Frame w w' ByteArray.empty ∧
+def CompPost (c : Cfg) (I : σ → ByteArray → ByteArray → Prop) (all : Bool) (w : WSt σ) : OpRes σ → Prop
+  | .ok w' => InvI c I w' ∧ Frame w w' ByteArray.empty ∧ w'.look.size ≤ thr all
+  | .limit w' => InvI c I w' ∧ Frame w w' ByteArray.empty ∧
       Gen.lzma_maxCompressed < w'.digits + 4 + Gen.lzma_opLenMargin ∧ thr all < w'.look.size
   | .broken _ => ¬ 25 ≤ Gen.lzma_opLenMargin
   | .bad _ _ => False
 
-theorem CompPost.trans {c : Cfg} {all : Bool} {w w1 : WSt σ} {r : OpRes σ} (h1 : Frame w w1 ByteArray.empty)
-    (h2 : CompPost c all w1 r) : CompPost c all w r := by
+theorem CompPost.trans {c : Cfg} {I : σ → ByteArray → ByteArray → Prop} {all : Bool} {w w1 : WSt σ} {r : OpRes σ}
+    (h1 : Frame w w1 ByteArray.empty) (h2 : CompPost c I all w1 r) : CompPost c I all w r := by
   cases r with
   | ok w' => exact ⟨h2.1, h1.trans0 h2.2.1, h2.2.2⟩
   | limit w' => exact ⟨h2.1, h1.trans0 h2.2.1, h2.2.2⟩
   | broken w' => exact h2
   | bad w' s => exact h2
 
-theorem compress_spec (c : Cfg) (hc : CfgOk' c) (M : Matcher σ) (hM : MatcherOk' c M) (all : Bool) :
-    ∀ (fuel : Nat) (w : WSt σ), Inv c w → w.look.size < fuel → CompPost c all w (compress c M all fuel w) := by
+theorem compress_spec (c : Cfg) (hc : CfgOk' c) (M : Matcher σ) (I : σ → ByteArray → ByteArray → Prop)
+    (hI : MatcherInv' c M I) (all : Bool) :
+    ∀ (fuel : Nat) (w : WSt σ), InvI c I w → w.look.size < fuel →
+      CompPost c I all w (compress c M all fuel w) := by
   intro fuel
   induction fuel with
   | zero => intro w _ h; omega
@@ -253,25 +263,36 @@ theorem compress_spec (c : Cfg) (hc : CfgOk' c) (M : Matcher σ) (hM : MatcherOk
       rw [if_pos hl']
       rcases hnx : M.next w.m w.hist w.look w.s with ⟨g, m'⟩
       simp only []
-      have hi1 := hi.setM m'
+      have hi1 := hi.toInv.setM m'
       have hf1 := Frame.setM w m'
+      have hdrop : I ({ w with m := m' } : WSt σ).m ({ w with m := m' } : WSt σ).hist
+          ({ w with m := m' } : WSt σ).look := by
+        have := hI.drop w.m w.hist w.look w.s hi.sync (by omega) hi.space
+        rw [hnx] at this
+        exact this
+      have hcons : I ({ w with m := m' } : WSt σ).m
+          (({ w with m := m' } : WSt σ).hist ++ ({ w with m := m' } : WSt σ).look.extract 0 g.len)
+          (({ w with m := m' } : WSt σ).look.extract g.len ({ w with m := m' } : WSt σ).look.size) := by
+        have := hI.consume w.m w.hist w.look w.s hi.sync (by omega) hi.space
+        rw [hnx] at this
+        exact this
       have hlk : ({ w with m := m' } : WSt σ).look.size = w.look.size := rfl
       have hg : GoOpOk' c ({ w with m := m' } : WSt σ).hist ({ w with m := m' } : WSt σ).look
           ({ w with m := m' } : WSt σ).s g := by
-        have := hM w.m w.hist w.look w.s (by omega)
+        have := hI.ok w.m w.hist w.look w.s hi.sync (by omega) hi.space
         rw [hnx] at this
         exact this
       generalize ({ w with m := m' } : WSt σ) = w1 at *
       by_cases hlim : Gen.lzma_maxCompressed < w1.digits + 4 + Gen.lzma_opLenMargin
       · rw [if_pos hlim]
-        exact ⟨hi1, hf1, hlim, by omega⟩
+        exact ⟨⟨hi1, hdrop⟩, hf1, hlim, by omega⟩
       · rw [if_neg hlim]
         have hop := encodeOp_spec c hc w1 g hi1 hg (by omega)
         cases hr : encodeOp c w1 g with
         | ok w' =>
           rw [hr] at hop
-          obtain ⟨h1, h2, h3⟩ := hop
-          exact CompPost.trans (hf1.trans0 h2) (ih w' h1 (by omega))
+          obtain ⟨h1, h2, h3, hm, hh, hl⟩ := hop
+          exact CompPost.trans (hf1.trans0 h2) (ih w' ⟨h1, by rw [hm, hh, hl]; exact hcons⟩ (by omega))
         | limit w' => rw [hr] at hop; exact absurd hop id
         | broken w' => rw [hr] at hop; exact hop
         | bad w' s => rw [hr] at hop; exact absurd hop id
@@ -285,14 +306,16 @@ theorem dictWrite_spec (c : Cfg) (w : WSt σ) (p : ByteArray) (n : Nat) (hi : In
     (hwr : w.written + (p.size - n) ≤ Gen.lzma_maxUncompressed) :
     Inv c (w.dictWrite c p n).1 ∧
     Frame w (w.dictWrite c p n).1 (p.extract n (n + (w.dictWrite c p n).2)) ∧
-    (w.dictWrite c p n).2 = min (p.size - n) (w.dictAvail c) := by
+    (w.dictWrite c p n).2 = min (p.size - n) (w.dictAvail c) ∧
+    (w.dictWrite c p n).1.m = w.m ∧ (w.dictWrite c p n).1.hist = w.hist ∧
+    (w.dictWrite c p n).1.look = w.look ++ p.extract n (n + (w.dictWrite c p n).2) := by
   unfold WSt.dictWrite
   dsimp only
   generalize hk : min (p.size - n) (w.dictAvail c) = k
   have hex : (p.extract n (n + k)).size = k := by
     rw [ByteArray.size_extract]; omega
   refine ⟨⟨hi.cks, hi.out, hi.ctype, hi.eh, hi.enc, hi.ops, hi.eout, hi.erest, hi.tblok, hi.snapok, ?_,
-    hi.start, ?_, hi.r0, hi.r0s, hi.lim⟩, ⟨rfl, rfl, rfl, rfl, rfl, rfl, rfl, ?_, Nat.le_refl _, Nat.le_refl _⟩, rfl⟩
+    hi.start, ?_, hi.r0, hi.r0s, hi.lim⟩, ⟨rfl, rfl, rfl, rfl, rfl, rfl, rfl, ?_, Nat.le_refl _, Nat.le_refl _⟩, rfl, rfl, rfl, rfl⟩
   · show (w.look ++ p.extract n (n + k)).size + min w.hist.size c.dictCap ≤ ringCap c
     have := hi.space
     rw [ByteArray.size_append, hex]
@@ -306,16 +329,18 @@ theorem dictWrite_spec (c : Cfg) (w : WSt σ) (p : ByteArray) (n : Nat) (hi : In
   · show w.hist ++ (w.look ++ p.extract n (n + k)) = _
     rw [ByteArray.append_assoc]
 
-def EWPost (c : Cfg) (p : ByteArray) (w : WSt σ) (n : Nat) : OpRes σ × Nat → Prop
-  | (.ok w', n') => Inv c w' ∧ Frame w w' (p.extract n n') ∧ n' = p.size
-  | (.limit w', n') => Inv c w' ∧ Frame w w' (p.extract n n') ∧ n ≤ n' ∧ n' ≤ p.size ∧
+def EWPost (c : Cfg) (I : σ → ByteArray → ByteArray → Prop) (p : ByteArray) (w : WSt σ) (n : Nat) :
+    OpRes σ × Nat → Prop
+  | (.ok w', n') => InvI c I w' ∧ Frame w w' (p.extract n n') ∧ n' = p.size
+  | (.limit w', n') => InvI c I w' ∧ Frame w w' (p.extract n n') ∧ n ≤ n' ∧ n' ≤ p.size ∧
       Gen.lzma_maxCompressed < w'.digits + 4 + Gen.lzma_opLenMargin ∧ 272 < w'.look.size
   | (.broken _, _) => ¬ 25 ≤ Gen.lzma_opLenMargin
   | (.bad _ _, _) => False
 
-theorem EWPost.trans {c : Cfg} {p : ByteArray} {w w1 : WSt σ} {n n1 : Nat} {r : OpRes σ × Nat}
-    (h1 : Frame w w1 (p.extract n n1)) (hn : n ≤ n1) (hn1 : n1 ≤ p.size) (h2 : EWPost c p w1 n1 r) :
-    EWPost c p w n r := by
+theorem EWPost.trans {c : Cfg} {I : σ → ByteArray → ByteArray → Prop} {p : ByteArray} {w w1 : WSt σ} {n n1 : Nat}
+    {r : OpRes σ × Nat}
+    (h1 : Frame w w1 (p.extract n n1)) (hn : n ≤ n1) (hn1 : n1 ≤ p.size) (h2 : EWPost c I p w1 n1 r) :
+    EWPost c I p w n r := by
   obtain ⟨r, n'⟩ := r
   cases r with
   | ok w' =>
@@ -331,17 +356,24 @@ theorem EWPost.trans {c : Cfg} {p : ByteArray} {w w1 : WSt σ} {n n1 : Nat} {r :
   | broken w' => exact h2
   | bad w' s => exact h2
 
-theorem encWrite_spec (c : Cfg) (hc : CfgOk' c) (M : Matcher σ) (hM : MatcherOk' c M) (p : ByteArray) :
-    ∀ (fuel : Nat) (w : WSt σ) (n : Nat), Inv c w → n ≤ p.size →
+theorem encWrite_spec (c : Cfg) (hc : CfgOk' c) (M : Matcher σ) (I : σ → ByteArray → ByteArray → Prop)
+    (hI : MatcherInv' c M I) (p : ByteArray) :
+    ∀ (fuel : Nat) (w : WSt σ) (n : Nat), InvI c I w → n ≤ p.size →
       w.written + (p.size - n) ≤ Gen.lzma_maxUncompressed →
       (p.size - n) + (if 1 ≤ w.dictAvail c then 1 else 2) ≤ fuel →
-      EWPost c p w n (encWrite c M p fuel w n) := by
+      EWPost c I p w n (encWrite c M p fuel w n) := by
   intro fuel
   induction fuel with
   | zero => intro w n _ _ _ h; split at h <;> omega
   | succ fuel ih =>
     intro w n hi hn hwr hf
-    obtain ⟨h1, h2, h3⟩ := dictWrite_spec c w p n hi hn hwr
+    obtain ⟨h1, h2, h3, h4, h5, h6⟩ := dictWrite_spec c w p n hi.toInv hn hwr
+    have h1I : InvI c I (w.dictWrite c p n).1 := by
+      refine ⟨h1, ?_⟩
+      have hsp := h1.space
+      rw [h6] at hsp
+      rw [h4, h5, h6]
+      exact hI.grow _ _ _ _ hi.sync hsp
     unfold encWrite
     simp only []
     have hw1 := h2.written hi.start
@@ -351,7 +383,7 @@ theorem encWrite_spec (c : Cfg) (hc : CfgOk' c) (M : Matcher σ) (hM : MatcherOk
       rw [ByteArray.size_extract]; omega
     by_cases hlt : n + k < p.size
     · rw [if_pos hlt]
-      have hcs := compress_spec c hc M hM false (w1.look.size + 1) w1 h1 (by omega)
+      have hcs := compress_spec c hc M I hI false (w1.look.size + 1) w1 h1I (by omega)
       cases hr : compress c M false (w1.look.size + 1) w1 with
       | ok w2 =>
         rw [hr] at hcs
@@ -381,6 +413,6 @@ theorem encWrite_spec (c : Cfg) (hc : CfgOk' c) (M : Matcher σ) (hM : MatcherOk
       | bad w2 s => rw [hr] at hcs; exact absurd hcs id
     · rw [if_neg hlt]
       have : n + k = p.size := by omega
-      exact ⟨h1, h2, this⟩
+      exact ⟨h1I, h2, this⟩
 
 end W2
